@@ -39,7 +39,7 @@ def main():
     if not os.path.isdir(WT):
         sh("git -C /repo worktree add -q --detach %s HEAD" % WT)
     sh("git -C %s checkout -q --detach main; git -C %s checkout -q -- .; git -C %s clean -fdq" % (WT, WT, WT))
-    path = os.path.join(VERIF, "notes", "controls_result.json")
+    path = os.environ.get("CONTROLS_RESULT") or os.path.join(VERIF, "notes", "controls_result.json")
     results = {r["id"]: r for r in json.load(open(path))} if os.path.exists(path) else {}
     root = os.path.join(VERIF, "controls")
     for cid in sorted(os.listdir(root)):
